@@ -1,6 +1,9 @@
 //! Property-based verification harness for saveoursecrets/sdk.
 pub mod framework;
 pub mod engine_acct;
+pub mod engine_evlog;
+pub mod prop_c06;
+pub mod prop_c07;
 pub mod prop_c08;
 pub mod prop_c08_scan;
 pub mod prop_c10;
@@ -8,7 +11,7 @@ pub mod prop_c10;
 use framework::PropertyDef;
 
 pub fn registry() -> Vec<PropertyDef> {
-    vec![prop_c08::def(), prop_c10::def()]
+    vec![prop_c06::def(), prop_c07::def(), prop_c08::def(), prop_c10::def()]
 }
 
 /// Internal process sub-modes used by engines (crash children, decoder workers).
